@@ -721,11 +721,10 @@ impl Game {
         }
 
         let mut push = |_move| {
-            // SAFETY: The number of possible moves on the board at any given time
-            // will never exceed the arrays capacity (256)
-            unsafe {
-                moves.push_unchecked(_move);
-            }
+            // No position of a real game has more moves than the array's capacity (256),
+            // but the FEN reader accepts any material (e.g. 26 queens: 276 moves), so the
+            // capacity is checked; moves beyond it are dropped instead of written out of bounds
+            let _ = moves.try_push(_move);
         };
 
         for row in 0..8 {
